@@ -323,43 +323,55 @@ func attempt(bc bcase, lf leaf, n int) (status, detail string) {
 }
 
 func (c *ctx) runBoundary(bc bcase) {
+	for _, f := range c.boundaryJobs(bc) {
+		f()
+	}
+}
+
+// boundaryJobs returns one unit of work per length-carrying leaf of the case (so that a case
+// with many or large leaves spreads over the workers).
+func (c *ctx) boundaryJobs(bc bcase) (jobs []func()) {
 	bc = cached(bc)
 	r := c.r
 	root := reflect.ValueOf(bc.build())
 	var leaves []leaf
 	lenLeaves(root, "", func(r reflect.Value) reflect.Value { return r }, &leaves, 0)
 	for _, lf := range leaves {
-		ctlStatus := map[int]string{}
-		for _, n := range bc.lens {
-			atomic.AddInt64(&c.evals, 1)
-			name := fmt.Sprintf("%s%s/len=%#x", bc.name, lf.path, n)
-			art := map[string]interface{}{"kind": "boundary", "case": name}
-			st, detail := attempt(bc, lf, n)
-			switch st {
-			case "ok":
-				atomic.AddInt64(&c.boundary, 1)
-				c.mark(fmt.Sprintf("boundary|%s|%s|%d", bc.class, fieldClass(lf.path), lenClass(n)))
-				continue
-			case "not-carried":
-				atomic.AddInt64(&c.boundaryNotCarried, 1)
-				continue
-			}
-			// failed: is a declared limit at work? ask the control length of the same width class
-			ctl := control(n)
-			cs, ok := ctlStatus[ctl]
-			if !ok {
+		lf := lf
+		jobs = append(jobs, func() {
+			ctlStatus := map[int]string{}
+			for _, n := range bc.lens {
 				atomic.AddInt64(&c.evals, 1)
-				cs, _ = attempt(bc, lf, ctl)
-				ctlStatus[ctl] = cs
+				name := fmt.Sprintf("%s%s/len=%#x", bc.name, lf.path, n)
+				art := map[string]interface{}{"kind": "boundary", "case": name}
+				st, detail := attempt(bc, lf, n)
+				switch st {
+				case "ok":
+					atomic.AddInt64(&c.boundary, 1)
+					c.mark(fmt.Sprintf("boundary|%s|%s|%d", bc.class, fieldClass(lf.path), lenClass(n)))
+					continue
+				case "not-carried":
+					atomic.AddInt64(&c.boundaryNotCarried, 1)
+					continue
+				}
+				// failed: is a declared limit at work? ask the control length of the same width class
+				ctl := control(n)
+				cs, ok := ctlStatus[ctl]
+				if !ok {
+					atomic.AddInt64(&c.evals, 1)
+					cs, _ = attempt(bc, lf, ctl)
+					ctlStatus[ctl] = cs
+				}
+				if cs != "ok" {
+					atomic.AddInt64(&c.boundaryRefused, 1)
+					continue
+				}
+				r.Violate("C04|boundary-length|"+st+"|"+bc.class+"|"+fieldClass(lf.path),
+					fmt.Sprintf("a length/count of %#x at %s does not survive encode/decode (%s %s) although %#x does", n, lf.path, st, detail, ctl), art)
 			}
-			if cs != "ok" {
-				atomic.AddInt64(&c.boundaryRefused, 1)
-				continue
-			}
-			r.Violate("C04|boundary-length|"+st+"|"+bc.class+"|"+fieldClass(lf.path),
-				fmt.Sprintf("a length/count of %#x at %s does not survive encode/decode (%s %s) although %#x does", n, lf.path, st, detail, ctl), art)
-		}
+		})
 	}
+	return jobs
 }
 
 func lenClass(n int) int {
@@ -543,7 +555,11 @@ func (c *ctx) boundaryCases() (out []bcase, seq []bcase) {
 			}
 			return sp.New()
 		})
-		seq = append(seq, bc) // messages share a process-global payload version: not in parallel
+		if sp.Setup != nil {
+			seq = append(seq, bc) // depends on the process-global DPoS payload version: not in parallel
+		} else {
+			out = append(out, bc)
+		}
 	}
 	return out, seq
 }
@@ -600,7 +616,7 @@ const limitCap = 1<<20 + 16
 // probeLimits finds, for every byte-string / string field of the value class, the largest length
 // that survives encode → decode (bisection; the boundary family above shows separately that the
 // var-int width changes do not break monotonicity). The result is keyed by case name + field path.
-func (c *ctx) probeLimits(bc bcase) map[string]int {
+func (c *ctx) probeLimits(bc bcase, skip map[string]bool) map[string]int {
 	bc = cached(bc)
 	out := map[string]int{}
 	root := reflect.ValueOf(bc.build())
@@ -621,10 +637,13 @@ func (c *ctx) probeLimits(bc bcase) map[string]int {
 			st, _ := attempt(bc, lf, n)
 			return st == "ok"
 		}
+		key := bc.name + lf.path
+		if skip[key] {
+			continue // the same field of the same payload version is probed through another variant
+		}
 		if !ok(1) {
 			continue // not carried by this variant (or not a free field)
 		}
-		key := bc.name + lf.path
 		if ok(limitCap) {
 			out[key] = limitCap
 			continue
@@ -655,8 +674,37 @@ func (c *ctx) checkLimits(cases []bcase, seq []bcase) (observed map[string]int, 
 	var mu sync.Mutex
 	classOf := map[string]string{}
 	pathOf := map[string]string{}
+	// one probe per (transaction type, payload version, field): the first variant (proposal type)
+	// that carries the field does it — decided in a sequential pre-pass so that it is deterministic
+	skip := map[string]bool{}
+	firstCarrier := map[string]bool{}
+	for _, bc0 := range cases {
+		seg := strings.SplitN(bc0.name, "/", 4)
+		if len(seg) < 4 || seg[0] != "tx" {
+			continue // not a multi-variant transaction payload case
+		}
+		group := strings.Join(seg[:3], "/")
+		bc := cached(bc0)
+		root := reflect.ValueOf(bc.build())
+		var leaves []leaf
+		lenLeaves(root, "", func(r reflect.Value) reflect.Value { return r }, &leaves, 0)
+		for _, lf := range leaves {
+			v := safeGet(lf, root)
+			if !v.IsValid() || !(v.Kind() == reflect.String || (v.Kind() == reflect.Slice && v.Type().Elem().Kind() == reflect.Uint8)) {
+				continue
+			}
+			g := group + lf.path
+			if firstCarrier[g] {
+				skip[bc0.name+lf.path] = true
+				continue
+			}
+			if st, _ := attempt(bc, lf, 1); st == "ok" {
+				firstCarrier[g] = true
+			}
+		}
+	}
 	run := func(bc bcase) {
-		m := c.probeLimits(bc)
+		m := c.probeLimits(bc, skip)
 		mu.Lock()
 		for k, v := range m {
 			observed[k] = v
